@@ -2112,26 +2112,34 @@ class Scheduler:
 
             # Compute final call_hash and record CallNode.
             if job.recording_provenance():
-                error_value = ErrorValue(error, error_traceback or Traceback.from_error(error))
-                try:
-                    error_hash = self.backend.record_value(error_value)
-                except (TypeError, AttributeError):
-                    # Some errors cannot be serialized so record them as generic Exceptions.
-                    error2 = Exception(repr(error))
+                if job.call_hash:
+                    # The failed call was already recorded by the equivalent job this job was
+                    # deduplicated onto (or cached from). Reuse its CallNode, which lists the
+                    # child calls that actually ran.
+                    assert job.was_cached
+                else:
                     error_value = ErrorValue(
-                        error2, error_traceback or Traceback.from_error(error2)
+                        error, error_traceback or Traceback.from_error(error)
                     )
-                    error_hash = self.backend.record_value(error_value)
-                job.call_hash = self.backend.record_call_node(
-                    task_name=job.task.fullname,
-                    task_hash=job.task.hash,
-                    args_hash=job.args_hash,
-                    expr_args=(job.expr.args, job.expr.kwargs),  # ty: ignore[unresolved-attribute]
-                    eval_args=job.eval_args,
-                    result_hash=error_hash,
-                    child_call_hashes=child_call_hashes,
-                    subtree_tasks=subtree_tasks,
-                )
+                    try:
+                        error_hash = self.backend.record_value(error_value)
+                    except (TypeError, AttributeError):
+                        # Some errors cannot be serialized so record them as generic Exceptions.
+                        error2 = Exception(repr(error))
+                        error_value = ErrorValue(
+                            error2, error_traceback or Traceback.from_error(error2)
+                        )
+                        error_hash = self.backend.record_value(error_value)
+                    job.call_hash = self.backend.record_call_node(
+                        task_name=job.task.fullname,
+                        task_hash=job.task.hash,
+                        args_hash=job.args_hash,
+                        expr_args=(job.expr.args, job.expr.kwargs),  # ty: ignore[unresolved-attribute]
+                        eval_args=job.eval_args,
+                        result_hash=error_hash,
+                        child_call_hashes=child_call_hashes,
+                        subtree_tasks=subtree_tasks,
+                    )
 
                 # Record CallNode context, if present.
                 context = job.get_context()
